@@ -208,6 +208,8 @@ def options(draw, tree):
         cands = [os.path.join(p, subdir_name(sd["t"])) for p, nd in chans if nd["kind"] != "plain" for sd in nd["subdirs"]]
         if cands:
             opts["vanish"] = draw(st.sampled_from(cands))
+    # naive datetimes are documented to mean UTC (the checks run with a non-UTC local time zone)
+    opts["naive"] = draw(st.booleans())
     return opts
 
 
@@ -319,6 +321,10 @@ def expected_listing(tree, opts):
 
 
 def lsdrf_kwargs(opts):
-    return dict(recursive=opts["recursive"], reverse=opts["reverse"], starttime=to_dt(opts["start"]), endtime=to_dt(opts["end"]),
+    def t(ms):
+        d = to_dt(ms)
+        return d.replace(tzinfo=None) if (d is not None and opts.get("naive")) else d
+
+    return dict(recursive=opts["recursive"], reverse=opts["reverse"], starttime=t(opts["start"]), endtime=t(opts["end"]),
                 include_drf=opts["include_drf"], include_dmd=opts["include_dmd"],
                 include_drf_properties=opts["include_drf_properties"], include_dmd_properties=opts["include_dmd_properties"])
